@@ -177,6 +177,9 @@ def run(ctx):
     # ---- R1 ----------------------------------------------------------------------
     _key_completeness(ctx)
 
+    # ---- R7 ----------------------------------------------------------------------
+    _function_attribute_memos(ctx)
+
     # ---- R6 / R3 -------------------------------------------------------------------
     cg = CallGraph(repo)
     cached = {q: (m, fn) for q, (m, fn) in cg.funcs.items()
@@ -281,6 +284,159 @@ def _returns_cached_instead_of_argument(fn, st) -> bool:
     if isinstance(p, ast.Return) and isinstance(st, ast.Call):
         return True
     return False
+
+
+# stores of private attributes on caller-supplied functions that need no ownership check, one reason each
+ATTR_MEMO_EXEMPT = {
+    'utilcacheobjattr.set_object_attr_cached': 'only reached from the PEP 649/749 annotation shim, which is gated on '
+                                               'Python >= 3.14: not executed (and not demonstrable) under the '
+                                               'interpreter of this sandbox; suspected to share the defect',
+}
+
+
+def _ancestors(node, stop):
+    p = parent(node)
+    while p is not None and p is not stop:
+        yield p
+        p = parent(p)
+
+
+def _import_time_only(repo, m, fn) -> bool:
+    """``fn`` is a table builder called only at module level of its own module (``_init()``)."""
+    if parent(fn) is not m.tree:
+        return False
+    called_at_top = any(isinstance(c, ast.Call) and dotted(c.func) == fn.name
+                        for st in m.tree.body if not isinstance(st, (ast.FunctionDef, ast.AsyncFunctionDef, ast.ClassDef))
+                        for c in ast.walk(st))
+    if not called_at_top:
+        return False
+    for other in ast.walk(m.tree):
+        if isinstance(other, ast.Call) and dotted(other.func) == fn.name and enclosing_function(other) is not None:
+            return False
+    return fn.name.startswith('_')
+
+
+def _lossy(fn, k):
+    txt = norm(k)
+    for marker in ('get_hint_repr(', 'repr(', 'str(', '.__name__', '.__qualname__'):
+        if marker in txt:
+            return marker.strip('(.')
+    if isinstance(k, ast.Name):
+        for a in walk_shallow(fn):
+            if isinstance(a, ast.Assign) and dotted(a.targets[0]) == k.id:
+                t = norm(a.value)
+                for marker in ('get_hint_repr(', 'repr(', 'str('):
+                    if marker in t:
+                        return marker.strip('(')
+    return None
+
+
+def _returns_cached_instead_of_argument(fn, st) -> bool:
+    """The value obtained from the table is assigned to / returned as the function's own
+    parameter (the cached object replaces the argument)."""
+    ps = set(params_of(fn))
+    node = st
+    p = parent(st) if not isinstance(st, ast.stmt) else st
+    while p is not None and not isinstance(p, ast.stmt):
+        p = parent(p)
+    if isinstance(p, ast.Assign) and any(dotted(t) in ps for t in p.targets) and isinstance(st, ast.Call):
+        return True
+    if isinstance(p, ast.Return) and isinstance(st, ast.Call):
+        return True
+    return False
+
+
+# stores of private attributes on caller-supplied functions that need no ownership check, one reason each
+ATTR_MEMO_EXEMPT = {
+    'utilcacheobjattr.set_object_attr_cached': 'only reached from the PEP 649/749 annotation shim, which is gated on '
+                                               'Python >= 3.14: not executed (and not demonstrable) under the '
+                                               'interpreter of this sandbox; suspected to share the defect',
+}
+
+
+def _function_attribute_memos(ctx, RULE='C14.R7', marker=False):
+    ctx.rule(RULE, 'memo stored on a caller-supplied function: functools.wraps / update_wrapper copy __dict__, so a '
+             'beartype-private attribute written on a function (func.__beartype_* = …, or setattr on a FunctionType) '
+             'also appears on every later wraps-copy of it; every reader of such an attribute must verify ownership '
+             '(compare an owner token stored with the value — the code object or a weak reference — with the function '
+             'it read the attribute from) before trusting it.  Otherwise the answer for the copy depends on whether '
+             'the original was inspected earlier')
+    repo = ctx.repo
+    stores = []
+    for mn, m in sorted(repo.modules.items()):
+        if '__beartype_' not in m.src and 'setattr(' not in m.src:
+            continue
+        for fn in [x for x in ast.walk(m.tree) if isinstance(x, (ast.FunctionDef, ast.AsyncFunctionDef))]:
+            ps = set(params_of(fn)) - {'self', 'cls', 'mcs'}
+            for a in walk_shallow(fn):
+                if isinstance(a, ast.Assign):
+                    for t in a.targets:
+                        if isinstance(t, ast.Attribute) and isinstance(t.value, ast.Name) and t.value.id in ps \
+                                and t.attr.startswith('__beartype_'):
+                            stores.append((mn, m, fn, a, t.attr, t.value.id))
+                elif isinstance(a, ast.Call) and dotted(a.func) == 'setattr' and len(a.args) == 3 \
+                        and isinstance(a.args[0], ast.Name) and a.args[0].id in ps:
+                    # only stores onto function objects matter (types and modules are not copied by wraps)
+                    g = [norm(p_.test) for p_ in _ancestors(a, fn) if isinstance(p_, ast.If)]
+                    if any('FunctionType' in x for x in g):
+                        stores.append((mn, m, fn, a, None, a.args[0].id))
+    n = 0
+    # the "already beartyped" marker is not a memo of an answer: it is decided under C13 (idempotence), every
+    # other attribute under C14
+    stores = [st_ for st_ in stores if (st_[4] == '__beartype_wrapper') == marker]
+    for mn, m, fn, a, attr, pv in stores:
+        key = f'{mn.split(".")[-1]}.{qualname_of(fn)}'
+        n += 1
+        if key in ATTR_MEMO_EXEMPT:
+            ctx.ob(RULE, f'function-attribute-memo:{key}', m.where(a), 'reviewed exemption', True)
+            ctx.note(f'{RULE} exempt {key}: {ATTR_MEMO_EXEMPT[key]}')
+            continue
+        # readers of that attribute anywhere in the package
+        readers = []
+        for mn2, m2 in repo.modules.items():
+            if attr is None or attr not in m2.src:
+                continue
+            for f2 in [x for x in ast.walk(m2.tree) if isinstance(x, (ast.FunctionDef, ast.AsyncFunctionDef))]:
+                for c in walk_shallow(f2):
+                    if isinstance(c, ast.Call) and dotted(c.func) in ('getattr', 'hasattr') and len(c.args) >= 2 \
+                            and isinstance(c.args[1], ast.Constant) and c.args[1].value == attr:
+                        readers.append((m2, f2, c, norm(c.args[0])))
+                    elif isinstance(c, ast.Attribute) and c.attr == attr and isinstance(c.ctx, ast.Load):
+                        readers.append((m2, f2, c, norm(c.value)))
+        unchecked = []
+        for m2, f2, c, owner in readers:
+            # an ownership check: an `is` comparison in the reader relating something derived from the value
+            # that was read to the function it was read from (the function itself or its code object)
+            import re as _re
+            held = {norm(c)}
+            for a2 in walk_shallow(f2):
+                if isinstance(a2, ast.Assign) and isinstance(a2.targets[0], ast.Name) and any(x is c for x in ast.walk(a2.value)):
+                    held.add(a2.targets[0].id)
+            ok = False
+            for cmp_ in [x for x in walk_shallow(f2) if isinstance(x, ast.Compare) and any(isinstance(o, (ast.Is, ast.IsNot)) for o in x.ops)]:
+                sides = [norm(cmp_.left)] + [norm(x) for x in cmp_.comparators]
+                if any(sd in ('None', 'True', 'False') for sd in sides):
+                    continue
+                from_value = [sd for sd in sides if any(_re.search(rf'(?<![\w.]){_re.escape(h)}(?![\w])', sd) for h in held)]
+                from_owner = [sd for sd in sides if sd not in from_value and _re.search(rf'(?<![\w.]){_re.escape(owner)}(?![\w])', sd)]
+                if from_value and from_owner:
+                    ok = True
+            if not ok:
+                unchecked.append((m2, f2, c))
+        ctx.ob(RULE, f'function-attribute-memo:{key}:{attr}', m.where(a),
+               f'every reader of {attr} verifies that the value belongs to the function it was read from',
+               bool(readers) and not unchecked,
+               (f'{qualname_of(unchecked[0][1])} ({unchecked[0][0].relpath}:{unchecked[0][2].lineno}) trusts the attribute as '
+                f'found: a functools.wraps copy of a function that was inspected earlier answers with the original\'s value')
+               if unchecked else 'no reader found')
+    ctx.floor(RULE, n, 1 if marker else 2, 'private attributes stored on caller-supplied functions')
+
+
+def _ancestors(node, stop):
+    p = parent(node)
+    while p is not None and p is not stop:
+        yield p
+        p = parent(p)
 
 
 # parameters of make_check_expr that may stay outside the memo key, one reason each
